@@ -190,13 +190,19 @@ PROPS = {
     },
     "C12": {
         "title": "Built functions appear exactly as built",
-        "units": ["V4_inject", "V1_locals"],
-        "obligations": ["V4_inject.FunctionBuilder.*", "V4_inject.fn:FunctionBuilder as Inject::inject", "V4_inject.Body.*", "V4_inject.fn:Body::push_op", "V4_inject.fn:Body::end",
+        "units": ["V4_inject", "V1_locals", "V6_api", "V7_types"],
+        "obligations": ["V6_api.finish_module.*", "V6_api.fn:FunctionBuilder::finish_module_with_tag", "V6_api.add_local_func.*", "V6_api.fn:Module::add_local_func_with_tag",
+                        "V6_api.Functions.add_local_func.*", "V6_api.fn:Functions::add_local_func", "V6_api.fn:LocalFunction::new", "V6_api.LocalFunction.*",
+                        "V6_api.kf.convert_local_fn_to_import.keeps_function_space_well_formed",
+                        "V7_types.add_func_type.*", "V7_types.fn:ModuleTypes::add_func_type", "V7_types.add_type.*", "V7_types.fn:ModuleTypes::add_type",
+                        "V4_inject.FunctionBuilder.*", "V4_inject.fn:FunctionBuilder as Inject::inject", "V4_inject.Body.*", "V4_inject.fn:Body::push_op", "V4_inject.fn:Body::end",
                         "V4_inject.fn:Instruction::new",
                         "V1_locals.fn:FunctionBuilder as AddLocal::add_local", "V1_locals.add_local.*", "V1_locals.fn:add_local", "V1_locals.fn:lemma_*"],
-        "glue": ["FunctionBuilder::finish_module_with_tag / Module::add_local_func_with_tag (type lookup, id assignment) and the code-section emission loop in encode_internal are not under contract at this commit"],
+        "glue": ["the code-section / function-section / name-section emission loops in encode_internal are not under contract",
+                 "FunctionBuilder::set_name and finish_component_with_tag are not under contract",
+                 "in unit V6 the Opcode::end helper and ModuleTypes::add_func_type are assumed with the contracts proved in V9 and V7"],
         "design_ref": "DESIGN.md §5 C12",
-        "level_text": "Builder half only: inject appends exactly the given operator at the end and nothing else changes, end() appends one `end`, add_local declares exactly the requested local at the returned index. Registration in the module and emission are glue.",
+        "level_text": "inject appends exactly the given operator; finish_module registers a local function whose body is the built sequence plus exactly one `end`, with the declared locals, at the returned id (= its position), with a type id that designates (params, results); every existing function is untouched and the library's own consistency assertion cannot fire under the invariant. Emission is glue.",
     },
     "C15": {
         "title": "Before/after/alternate injection is lowered exactly",
